@@ -313,7 +313,7 @@ def _datasets(job):
                 try:
                     if ev['e'] == 'Dataset':
                         shape = 'Dataset(%s)' % ev['nm']
-                        v = fn[ev['nm']](ev['n'], ev['s'])
+                        v = fn[ev['nm']](ev['n'], B.Binding.REAL_SEED[ev['s']])       # seed token 1 is the falsy seed 0
                         rec['rows'] = int(len(v))
                         outid = rp.classes.exact_id('ds', P.digest(P.canon(v)))
                     elif ev['e'] == 'GlobalSeed':
